@@ -26,6 +26,7 @@ import (
 	"github.com/samaritan-proxy/samaritan/pb/config/service"
 	"github.com/samaritan-proxy/samaritan/proc/internal/log"
 	netutil "github.com/samaritan-proxy/samaritan/proc/internal/net"
+	"github.com/samaritan-proxy/samaritan/utils/verifpoint"
 )
 
 type ConnHandlerFunc func(conn net.Conn)
@@ -97,6 +98,7 @@ func (l *listener) Serve() error {
 		default:
 		}
 
+		verifpoint.HitArg("listener.serve.before-bind", l)
 		var err error
 		ln, err = defaultListenFunc("tcp", address)
 		if err == nil {
@@ -106,6 +108,7 @@ func (l *listener) Serve() error {
 		l.Warnf("listen on %s failed: %v, will keep trying...", address, err)
 		// TODO: use backoff algorithm to calculate sleep time.
 		t := time.NewTimer(time.Millisecond * 500)
+		verifpoint.HitArg("listener.serve.retry-sleep", l)
 		select {
 		case <-t.C:
 		case <-l.drain:
@@ -116,6 +119,7 @@ func (l *listener) Serve() error {
 	}
 
 	l.ln = ln
+	verifpoint.HitArg("listener.serve.after-bind", l)
 	l.Infof("start serving at %s", ln.Addr().String())
 	l.serve()
 	l.Infof("stop serving at %s, waiting all conns done", ln.Addr().String())
@@ -129,6 +133,7 @@ func (l *listener) Serve() error {
 func (l *listener) serve() {
 	var tempDelay time.Duration
 	for {
+		verifpoint.HitArg("listener.serve.before-accept", l)
 		conn, err := l.ln.Accept()
 		if err != nil {
 			if nerr, ok := err.(net.Error); ok && nerr.Temporary() {
